@@ -64,6 +64,8 @@ type Obligation struct {
 	Seconds float64
 	Model   string
 	File    string
+	SatMode string // which query form was satisfiable: ground | full
+	SmallScope []*Term // extra constraints for small-scope model extraction
 }
 
 type Exec struct {
@@ -95,6 +97,9 @@ type Exec struct {
 	strKeys  []strKey
 	loopPre  map[*ssa.BasicBlock]*State
 	rangedAt   map[*Term]bool
+	symCache   map[*Term][]string
+	stepApplied map[string]int
+	curInstr    ssa.Instruction
 	obligedAt  map[*Term]*ssa.BasicBlock  // safety condition -> block where it was first obliged
 	skipped    int                        // safety conditions not re-queried (syntactically known)
 	curBlock   *ssa.BasicBlock            // current block of the top-level function
@@ -208,7 +213,7 @@ func (x *Exec) oblige(st *State, kind, desc string, p token.Pos, cond *Term, pro
 	ob.block = x.curBlock
 	x.obls = append(x.obls, ob)
 	switch kind {
-	case "ensures", "frame", "inv-keep", "callback-preserves":
+	case "ensures", "frame", "inv-keep", "callback-preserves", "step":
 		// nothing executes after these points on the same path: not needed as hypotheses
 	default:
 		x.hyps = append(x.hyps, goal) // assert, then assume
@@ -577,6 +582,8 @@ type loopInfo struct {
 	blocks  map[*ssa.BasicBlock]bool
 	ordinal int
 	minPos  token.Pos
+	clearChecked bool
+	clearRange   *ssa.Range
 }
 
 func findLoops(fn *ssa.Function) map[*ssa.BasicBlock]*loopInfo {
@@ -769,6 +776,7 @@ func (x *Exec) runBody(fn *ssa.Function, st0 *State, params []Value, freevars []
 // "everything reachable is havoced, the result is unconstrained" and is listed in the ledger
 // (its own panics, if any, are then not checked).
 func (x *Exec) stepSafe(st *State, in ssa.Instruction) {
+	x.curInstr = in
 	defer func() {
 		if r := recover(); r != nil {
 			u, ok := r.(unsupportedErr)
@@ -846,42 +854,59 @@ func (x *Exec) relevantHyps(ob *Obligation) []*Term {
 	}
 	// unguarded facts (type ranges, literal contents, axioms, string-equality facts): keep those that
 	// share a symbol, transitively, with the goal or the path facts
+	if x.symCache == nil {
+		x.symCache = map[*Term][]string{}
+	}
+	symsOf := func(t *Term) []string {
+		if s, ok := x.symCache[t]; ok {
+			return s
+		}
+		m := map[string]bool{}
+		x.c.symbols(t, m, map[*Term]bool{})
+		s := make([]string, 0, len(m))
+		for k := range m {
+			s = append(s, k)
+		}
+		x.symCache[t] = s
+		return s
+	}
 	syms := map[string]bool{}
-	memo := map[*Term]bool{}
-	x.c.symbols(ob.Goal, syms, memo)
+	var frontier []string
+	addSyms := func(ss []string) {
+		for _, s := range ss {
+			if !syms[s] {
+				syms[s] = true
+				frontier = append(frontier, s)
+			}
+		}
+	}
+	addSyms(symsOf(ob.Goal))
 	for _, h := range out {
-		x.c.symbols(h, syms, memo)
+		addSyms(symsOf(h))
 	}
 	type uh struct {
 		h    *Term
-		syms map[string]bool
+		syms []string
 	}
-	var us []uh
-	for _, h := range unguarded {
-		s := map[string]bool{}
-		x.c.symbols(h, s, map[*Term]bool{})
-		us = append(us, uh{h, s})
-	}
+	us := make([]uh, len(unguarded))
+	bySym := map[string][]int{}
 	kept := make([]bool, len(us))
-	for changed := true; changed; {
-		changed = false
-		for i, u := range us {
-			if kept[i] {
-				continue
-			}
-			hit := len(u.syms) == 0
-			for s := range u.syms {
-				if syms[s] {
-					hit = true
-					break
-				}
-			}
-			if hit {
+	for i, h := range unguarded {
+		us[i] = uh{h, symsOf(h)}
+		if len(us[i].syms) == 0 {
+			kept[i] = true
+		}
+		for _, s := range us[i].syms {
+			bySym[s] = append(bySym[s], i)
+		}
+	}
+	for len(frontier) > 0 {
+		s := frontier[len(frontier)-1]
+		frontier = frontier[:len(frontier)-1]
+		for _, i := range bySym[s] {
+			if !kept[i] {
 				kept[i] = true
-				changed = true
-				for s := range u.syms {
-					syms[s] = true
-				}
+				addSyms(us[i].syms)
 			}
 		}
 	}
@@ -923,6 +948,22 @@ func (x *Exec) edge(fn *ssa.Function, fc *FuncContract, loops map[*ssa.BasicBloc
 		li := loops[to]
 		x.checkInvariant(fn, fc, li, st, loopEntry[to], "inv-keep")
 		return
+	}
+	// leaving a recognised "clear the map" loop (for k := range m { delete(m, k) }): m is empty
+	if li := loops[from]; li != nil && li.header == from && !li.blocks[to] {
+		if rng := x.w.clearIdiom(fn, li); rng != nil {
+			if it, ok := x.regs[rng].(rangeIter); ok {
+				if mt, isMap := it.t.Underlying().(*types.Map); isMap {
+					st = st.clone()
+					m := x.scalar(it.x)
+					pk, ph := x.mapPresent(st, mt)
+					empty := x.zeroLeaf(ArrSort(SInt, SBool))
+					st.heap[pk] = x.c.Store(ph, m, empty)
+					x.hyps = append(x.hyps, x.c.Eq(x.c.App("map_card", SInt, empty), x.c.Int(0)))
+					x.ledger["loop 'for k := range m { delete(m, k) }' recognised as clearing m (idiom; range visits every key)"] = true
+				}
+			}
+		}
 	}
 	key := [2]*ssa.BasicBlock{from, to}
 	if old, ok := x.edgeReach[key]; ok && incomingHas(incoming[to], from) {
@@ -1116,7 +1157,56 @@ func (x *Exec) checkInvariant(fn *ssa.Function, fc *FuncContract, li *loopInfo, 
 		env.locals = true
 		env.pos = li.minPos
 		t := x.evalBool(cl.Expr, env)
-		x.oblige(st, kind, fmt.Sprintf("loop %d invariant: %s", li.ordinal, cl.Text), li.minPos, t, cl.Props, cl.Text)
+		from := ""
+		if kind == "inv-keep" && x.curBlock != nil && fn == x.fn {
+			for k := len(x.curBlock.Instrs) - 1; k >= 0; k-- {
+				if p := x.curBlock.Instrs[k].Pos(); p.IsValid() {
+					from = " [back edge from " + x.pos(p) + "]"
+					break
+				}
+			}
+		}
+		x.oblige(st, kind, fmt.Sprintf("loop %d invariant: %s%s", li.ordinal, cl.Text, from), li.minPos, t, cl.Props, cl.Text)
+	}
+	if kind == "inv-keep" && fc != nil && fc.LoopStep != nil {
+		// position inside the block the back edge comes from: locals resolve in that scope
+		pos := li.minPos
+		if x.curBlock != nil && fn == x.fn {
+			for k := len(x.curBlock.Instrs) - 1; k >= 0; k-- {
+				if p := x.curBlock.Instrs[k].Pos(); p.IsValid() {
+					pos = p
+					break
+				}
+			}
+		}
+		for _, cl := range fc.LoopStep[li.ordinal] {
+			env := x.envFor(fn, st, x.entryFor(fn), nil)
+			env.iter = iterSt
+			if x.loopPre != nil {
+				env.pre = x.loopPre[li.header]
+			}
+			env.locals = true
+			env.pos = pos
+			env.lenient = true
+			// the antecedent first: a clause about another switch case need not even type-check here
+			if top := stripParen(cl.Expr); top.Op == "binary" && top.Name == "==>" {
+				if a, ok := x.evalBoolLenient(top.Args[0], env); !ok || x.triviallyTrue(st, x.c.Implies(a, x.c.Fresh("any", SBool))) {
+					continue
+				}
+			}
+			t, ok := x.evalBoolLenient(cl.Expr, env)
+			if !ok {
+				continue // mentions locals that do not exist on this path: another case's clause
+			}
+			if x.triviallyTrue(st, t) {
+				continue
+			}
+			if x.stepApplied == nil {
+				x.stepApplied = map[string]int{}
+			}
+			x.stepApplied[cl.Text]++
+			x.oblige(st, "step", fmt.Sprintf("loop %d step: %s [back edge from %s]", li.ordinal, cl.Text, x.pos(pos)), pos, t, cl.Props, cl.Text)
+		}
 	}
 	// frame invariant: implied by the function's modifies clause
 	if fc != nil && fc.ModifiesGiven && fn == x.fn {
@@ -1124,6 +1214,77 @@ func (x *Exec) checkInvariant(fn *ssa.Function, fc *FuncContract, li *loopInfo, 
 			x.oblige(st, kind, fmt.Sprintf("loop %d frame: unchanged outside the modifies clause: %s", li.ordinal, desc), li.minPos, g, fc.ModProps, "modifies")
 		}
 	}
+}
+
+// evalBoolLenient evaluates a clause that may mention locals of another switch case: such a clause
+// does not apply on this path.
+func (x *Exec) evalBoolLenient(e *CE, env *Env) (t *Term, ok bool) {
+	defer func() {
+		if r := recover(); r != nil {
+			if _, isU := r.(unsupportedErr); isU {
+				// (a step clause that applies on no back edge at all is reported as a check error)
+				t, ok = nil, false
+				return
+			}
+			panic(r)
+		}
+	}()
+	return x.evalBool(e, env), true
+}
+
+func stripParen(e *CE) *CE {
+	for e.Op == "paren" {
+		e = e.Args[0]
+	}
+	return e
+}
+
+func conjuncts(t *Term) []*Term {
+	if t.op == "and" && !t.leaf {
+		return t.args
+	}
+	return []*Term{t}
+}
+
+// triviallyTrue: an implication whose antecedent has a conjunct that the path condition negates.
+func (x *Exec) triviallyTrue(st *State, t *Term) bool {
+	if x.c.isTrue(t) {
+		return true
+	}
+	if t.op != "=>" || len(t.args) != 2 {
+		return false
+	}
+	neg := map[*Term]bool{}
+	eqLit := map[*Term]*Term{} // term -> literal it equals on this path
+	for _, r := range conjuncts(st.reach) {
+		neg[x.c.Not(r)] = true
+		if r.op == "=" && len(r.args) == 2 {
+			a, b := r.args[0], r.args[1]
+			if _, ok := x.c.litVal(a); ok {
+				a, b = b, a
+			}
+			if _, ok := x.c.litVal(b); ok {
+				eqLit[a] = b
+			}
+		}
+	}
+	for _, a := range conjuncts(t.args[0]) {
+		if neg[a] {
+			return true
+		}
+		if a.op == "=" && len(a.args) == 2 {
+			l, r := a.args[0], a.args[1]
+			if _, ok := x.c.litVal(l); ok {
+				l, r = r, l
+			}
+			if _, ok := x.c.litVal(r); ok {
+				if other, has := eqLit[l]; has && other != r {
+					return true // the path fixes this term to a different literal
+				}
+			}
+		}
+	}
+	return false
 }
 
 // frameConj: the frame goals of all changed heap components as one conjunction.
